@@ -154,7 +154,7 @@ def probes_for(t, data, mn, mx, rng, flba_len):
 
 def gen_bld(tier, rng):
     out = []
-    k = 10000 if tier == "quick" else 60000
+    k = 10000 if tier == "quick" else 250000
     for _ in range(k):
         t = rng.choice([BOOLEAN, INT32, INT64, INT96, FLOAT, DOUBLE, BYTE_ARRAY, BYTE_ARRAY, FLBA, FLBA])
         tlen = 0
@@ -188,7 +188,7 @@ def gen_bld(tier, rng):
 
 def gen_pw(tier, rng):
     out = []
-    k = 6000 if tier == "quick" else 40000
+    k = 6000 if tier == "quick" else 150000
     for _ in range(k):
         t = rng.choice([INT32, INT64, FLOAT, DOUBLE])
         maxdef = rng.choice([0, 0, 1, 1, 2])
@@ -233,7 +233,7 @@ def footer_with_stats(t, flba_len, rgs):
 
 def gen_rd(tier, rng):
     out = []
-    k = 4000 if tier == "quick" else 25000
+    k = 4000 if tier == "quick" else 100000
     for _ in range(k):
         t = rng.choice(READER_TYPES)
         flen = rng.choice([1, 3, 16]) if t == FLBA else 0
@@ -319,7 +319,7 @@ def gen_rd(tier, rng):
 
 def gen_helpers(tier, rng):
     out = []
-    k = 10000 if tier == "quick" else 60000
+    k = 10000 if tier == "quick" else 250000
     for _ in range(k):
         which = rng.choice(["cmp", "ovl", "ovl", "pm", "pm"])
         t = rng.choice(READER_TYPES + [INT96] + ([BOOLEAN] if which != "pm" else []))
@@ -388,7 +388,7 @@ def gen_helpers(tier, rng):
 def gen_file(tier, rng):
     """the public writer (statistics on) and reader: (line, meta) with the data of every row group"""
     out = []
-    k = 1200 if tier == "quick" else 10000
+    k = 1200 if tier == "quick" else 40000
     for _ in range(k):
         t = rng.choice([INT32, INT64, FLOAT, DOUBLE])
         nullable = rng.random() < 0.6
